@@ -814,8 +814,15 @@ static int _fetch_and_process_packet(OggVorbis_File *vf,
 
             if(ogg_page_bos(&og)){
               /* boundary case */
-              if(!spanp)
+              if(!spanp){
+                /* the page just read opens the next link and the
+                   caller does not want to go there: put it back, or
+                   whoever reads on later finds that link's first page
+                   gone and skips the whole link as a foreign stream */
+                if(vf->seekable && _seek_helper(vf,ret))
+                  return(OV_EREAD);
                 return(OV_EOF);
+              }
 
               _decode_clear(vf);
 
